@@ -1,249 +1,10 @@
 //! C11 — unknown enumerated code points are accepted and preserved (E3: complete field domains).
 use serde_json::{json, Map};
 use vchecks::sweep::*;
+use vchecks::fields::*;
 use vchecks::targets::*;
-use vcommon::catalogue as cat;
-use vcommon::en::W;
 use vcommon::report::*;
 use vcommon::v::Ref;
-
-// for types that are neither known nor GREASE every dispatcher must answer Unknown(type, data),
-// i.e. exactly what the generic reference says
-static EXT_CLIENT_REF: Target = Target {
-    name: "parse_tls_client_hello_extension",
-    run: |b| vchecks::mirror::call(b, tls_parser::parse_tls_client_hello_extension),
-    reference: vcommon::reference::wire::ref_extension,
-};
-static EXT_SERVER_REF: Target = Target {
-    name: "parse_tls_server_hello_extension",
-    run: |b| vchecks::mirror::call(b, tls_parser::parse_tls_server_hello_extension),
-    reference: vcommon::reference::wire::ref_extension,
-};
-
-struct Field {
-    name: &'static str,
-    bits: u32,
-    targets: Vec<&'static Target>,
-    /// encoding of the enclosing structure with the field set to x (second parameter for 2-D fields)
-    build: Box<dyn Fn(u32) -> W + Sync>,
-}
-
-fn fields() -> Vec<Field> {
-    let mut f: Vec<Field> = Vec::new();
-    let mut add = |name: &'static str, bits: u32, targets: Vec<&'static Target>, build: Box<dyn Fn(u32) -> W + Sync>| {
-        f.push(Field { name, bits, targets, build })
-    };
-    let hello = |w: &mut W, version: u16, ciphers: &[u16], comps: &[u8]| {
-        w.u16(version);
-        w.fill(32, 0x40);
-        w.u8(0);
-        w.block(2, "ciphers", |w| {
-            for c in ciphers {
-                w.u16(*c);
-            }
-        });
-        w.block(1, "comps", |w| {
-            for c in comps {
-                w.u8(*c);
-            }
-        });
-    };
-    add("record version (plaintext / raw / encrypted)", 16, vec![&PLAINTEXT, &RAW_RECORD, &ENCRYPTED, &TWO_STEP], Box::new(|x| {
-        cat::record(0x16, x as u16, |w| {
-            w.bytes(&[0x0e, 0, 0, 0]);
-        })
-    }));
-    add("content type of raw / encrypted records", 8, vec![&RAW_RECORD, &ENCRYPTED], Box::new(|x| cat::record(x as u8, 0x0303, |w| {
-        w.fill(3, 1);
-    })));
-    add("DTLS record version", 16, vec![&DTLS_RECORD], Box::new(|x| {
-        cat::dtls_record(0x15, x as u16, 1, 2, |w| {
-            w.u8(1).u8(0);
-        })
-    }));
-    add("ClientHello version (inside a record)", 16, vec![&PLAINTEXT], Box::new(move |x| {
-        cat::record(0x16, 0x0301, |w| {
-            w.append(&cat::hs(1, |w| hello(w, x as u16, &[0x002f], &[0])));
-        })
-    }));
-    add("ClientHello version (message level)", 16, vec![&MSG_HANDSHAKE], Box::new(move |x| cat::hs(1, |w| hello(w, x as u16, &[0x002f], &[0]))));
-    add("HelloRetryRequest version", 16, vec![&MSG_HANDSHAKE], Box::new(|x| cat::hs(6, |w| {
-        w.u16(x as u16).u16(0x1301);
-    })));
-    add("DTLS ClientHello / ServerHello / HelloVerifyRequest version", 16, vec![&DTLS_HANDSHAKE], Box::new(|x| {
-        cat::dtls_hs(1, 0, None, 0, |w| cat::client_hello_body(w, x as u16, 0, 1, 1, cat::ExtBlock::Absent, Some(3)))
-    }));
-    add("DTLS ServerHello version", 16, vec![&DTLS_HANDSHAKE], Box::new(|x| {
-        cat::dtls_hs(2, 0, None, 0, |w| {
-            w.u16(x as u16);
-            w.fill(32, 0x20);
-            w.u8(0).u16(0xc02f).u8(0);
-        })
-    }));
-    add("DTLS HelloVerifyRequest version", 16, vec![&DTLS_HANDSHAKE], Box::new(|x| {
-        cat::dtls_hs(3, 0, None, 0, |w| {
-            w.u16(x as u16);
-            w.block(1, "cookie", |w| {
-                w.fill(2, 7);
-            });
-        })
-    }));
-    add("cipher-suite id in a ClientHello list", 16, vec![&MSG_HANDSHAKE], Box::new(move |x| cat::hs(1, |w| hello(w, 0x0303, &[0x1301, x as u16, !(x as u16)], &[0]))));
-    add("ServerHello cipher-suite id", 16, vec![&MSG_HANDSHAKE], Box::new(|x| {
-        cat::hs(2, |w| {
-            w.u16(0x0303);
-            w.fill(32, 0x20);
-            w.u8(0).u16(x as u16).u8(0);
-        })
-    }));
-    add("draft-18 ServerHello / HelloRetryRequest cipher-suite id", 16, vec![&MSG_HANDSHAKE], Box::new(|x| {
-        if x % 2 == 0 {
-            cat::hs(2, |w| {
-                w.u16(0x7f12);
-                w.fill(32, 0x20);
-                w.u16(x as u16);
-            })
-        } else {
-            cat::hs(6, |w| {
-                w.u16(0x7f12).u16(x as u16);
-            })
-        }
-    }));
-    add("compression id in a ClientHello list", 8, vec![&MSG_HANDSHAKE], Box::new(move |x| cat::hs(1, |w| hello(w, 0x0303, &[], &[x as u8, 0, !(x as u8)]))));
-    add("ServerHello compression id", 8, vec![&MSG_HANDSHAKE], Box::new(|x| {
-        cat::hs(2, |w| {
-            w.u16(0x0301);
-            w.fill(32, 0x20);
-            w.u8(0).u16(0x002f).u8(x as u8);
-        })
-    }));
-    add("alert level x description (TLS)", 16, vec![&PLAINTEXT, &TWO_STEP], Box::new(|x| {
-        cat::record(0x15, 0x0303, |w| {
-            w.u16(x as u16);
-        })
-    }));
-    add("alert level x description (DTLS)", 16, vec![&DTLS_RECORD], Box::new(|x| {
-        cat::dtls_record(0x15, 0xfefd, 0, 0, |w| {
-            w.u16(x as u16);
-        })
-    }));
-    add("heartbeat message type", 8, vec![&PLAINTEXT, &TWO_STEP], Box::new(|x| {
-        cat::record(0x18, 0x0303, |w| {
-            w.u8(x as u8);
-            w.block(2, "hb", |w| {
-                w.fill(1, 3);
-            });
-            w.fill(2, 0);
-        })
-    }));
-    add("heartbeat extension mode", 8, vec![&EXTENSION], Box::new(|x| cat::ext_with(15, &[x as u8])));
-    add("max_fragment_length code", 8, vec![&EXTENSION], Box::new(|x| cat::ext_with(1, &[x as u8])));
-    add("extension type (parse_tls_extension_unknown)", 16, vec![&EXT_UNKNOWN], Box::new(|x| cat::ext_with(x as u16, &[1, 2, 3])));
-    add("extension type (all three dispatchers and the list parser; unassigned / GREASE types keep their number)", 16, vec![&EXTENSION, &EXTENSIONS, &EXT_CLIENT_REF, &EXT_SERVER_REF], Box::new(|x| {
-        // known types would select a structure: map them onto a neighbouring unassigned value
-        let t = x as u16;
-        let t = if vcommon::reference::iana::KNOWN_EXT_TYPES.contains(&t) { t ^ 0x4000 } else { t };
-        cat::ext_with(t, &[9, 8])
-    }));
-    add("named group in supported_groups", 16, vec![&EXTENSION], Box::new(|x| {
-        cat::ext(10, |w| {
-            w.block(2, "l", |w| {
-                w.u16(0x0017).u16(x as u16);
-            });
-        })
-    }));
-    add("named group in ECParameters / ServerECDHParams", 16, vec![&EC_PARAMETERS, &ECDH_PARAMS], Box::new(|x| {
-        let mut w = W::new();
-        w.u8(3).u16(x as u16);
-        w.block(1, "pt", |w| {
-            w.fill(3, 4);
-        });
-        w
-    }));
-    add("encrypted_server_name cipher suite / group", 16, vec![&EXTENSION], Box::new(|x| {
-        cat::ext(0xffce, |w| {
-            w.u16(x as u16).u16(!(x as u16));
-            w.block(2, "a", |_| {});
-            w.block(2, "b", |_| {});
-            w.block(2, "c", |_| {});
-        })
-    }));
-    add("signature scheme in signature_algorithms", 16, vec![&EXTENSION], Box::new(|x| {
-        cat::ext(13, |w| {
-            w.block(2, "l", |w| {
-                w.u16(x as u16);
-            });
-        })
-    }));
-    add("hash x signature algorithm in DigitallySigned", 16, vec![&SIGNED], Box::new(|x| {
-        let mut w = W::new();
-        w.u16(x as u16);
-        w.block(2, "sig", |w| {
-            w.fill(2, 0x30);
-        });
-        w
-    }));
-    add("signature_algorithms entry in CertificateRequest", 16, vec![&MSG_HANDSHAKE], Box::new(|x| cat::hs(13, |w| {
-        w.u8(1).u8(1);
-        w.block(2, "algs", |w| {
-            w.u16(x as u16);
-        });
-        w.u16(0);
-    })));
-    add("certificate type in CertificateRequest", 8, vec![&MSG_HANDSHAKE], Box::new(|x| cat::hs(13, |w| {
-        w.u8(2).u8(x as u8).u8(1);
-        w.block(2, "algs", |w| {
-            w.u16(0x0401);
-        });
-        w.u16(0);
-    })));
-    add("SNI name type", 8, vec![&EXTENSION], Box::new(|x| {
-        cat::ext(0, |w| {
-            w.block(2, "l", |w| {
-                w.u8(x as u8);
-                w.block(2, "n", |w| {
-                    w.bytes(b"a.b");
-                });
-            });
-        })
-    }));
-    add("certificate status type (CertificateStatus message)", 8, vec![&MSG_HANDSHAKE], Box::new(|x| cat::hs(22, |w| {
-        w.u8(x as u8);
-        w.block(3, "blob", |w| {
-            w.fill(2, 0x30);
-        });
-    })));
-    add("certificate status type (status_request extension)", 8, vec![&EXTENSION], Box::new(|x| cat::ext_with(5, &[x as u8, 0, 0, 0, 0])));
-    add("PSK key exchange mode", 8, vec![&EXTENSION], Box::new(|x| cat::ext_with(45, &[2, x as u8, 1])));
-    add("EC point format", 8, vec![&EXTENSION], Box::new(|x| cat::ext_with(11, &[2, 0, x as u8])));
-    add("supported version", 16, vec![&EXTENSION], Box::new(|x| {
-        cat::ext(43, |w| {
-            w.block(1, "l", |w| {
-                w.u16(0x0304).u16(x as u16);
-            });
-        })
-    }));
-    add("CT version", 8, vec![&SCT], Box::new(|x| {
-        let mut w = W::new();
-        cat::sct_entry(&mut w, x as u8, 5, 0, 4, 3, 2);
-        w
-    }));
-    add("CT version (list)", 8, vec![&SCT_LIST], Box::new(|x| {
-        let mut w = W::new();
-        w.block(2, "list", |w| cat::sct_entry(w, x as u8, 5, 0, 4, 3, 2));
-        w
-    }));
-    add("SCT hash x signature algorithm", 16, vec![&SCT], Box::new(|x| {
-        let mut w = W::new();
-        cat::sct_entry(&mut w, 0, 5, 0, (x >> 8) as u8, x as u8, 2);
-        w
-    }));
-    add("KeyUpdate request value", 8, vec![&MSG_HANDSHAKE], Box::new(|x| cat::hs(24, |w| {
-        w.u8(x as u8);
-    })));
-    add("EC curve type is a selector (only 1 and 3 parse): excluded, see C13", 0, vec![], Box::new(|_| W::new()));
-    f
-}
 
 fn main() {
     let run = Run::from_args("C11", "exploration");
